@@ -752,3 +752,72 @@ Proof. vm_compute. reflexivity. Qed.
    with the expiry of a timestamped bundle applied to the zero creation time *)
 Lemma scf_ex_old_expiry_swept : (0 + sb_life scf_ex_b <? 8434540001300) = true.
 Proof. reflexivity. Qed.
+
+(* ---------- the block loop of receive ---------- *)
+Lemma scf_remove_at_mid : forall pre x post, scf_remove_at (length pre) (pre ++ x :: post) = pre ++ post.
+Proof. induction pre as [|y r IH]; intros; cbn [length app scf_remove_at]; [reflexivity | rewrite IH; reflexivity]. Qed.
+
+Lemma scf_nth_error_mid : forall (pre : list scf_blk) x post, nth_error (pre ++ x :: post) (length pre) = Some x.
+Proof. induction pre as [|y r IH]; intros; cbn [length app nth_error]; auto. Qed.
+
+Lemma scf_rx_scan_spec : forall pre post,
+  scf_rx_scan (length pre) (pre ++ post) =
+  if existsb scf_blk_demands_deletion pre then None else Some (filter scf_blk_stays pre ++ post).
+Proof.
+  intros pre. induction pre as [|x pre IH] using rev_ind; intros post.
+  - reflexivity.
+  - rewrite app_length, Nat.add_1_r, <- app_assoc. cbn [app scf_rx_scan].
+    rewrite scf_nth_error_mid, existsb_app, filter_app. cbn [existsb filter].
+    unfold scf_blk_demands_deletion at 2, scf_blk_stays at 2.
+    destruct (bk_known x); cbn [negb andb orb].
+    + rewrite IH, !orb_false_r. destruct (existsb scf_blk_demands_deletion pre); [reflexivity|].
+      rewrite <- app_assoc. reflexivity.
+    + destruct (scf_blk_has scf_fl_delete x); cbn [orb].
+      * rewrite orb_true_r. reflexivity.
+      * rewrite !orb_false_r. destruct (scf_blk_has scf_fl_remove x); cbn [negb].
+        -- rewrite scf_remove_at_mid, IH. destruct (existsb scf_blk_demands_deletion pre); [reflexivity|].
+           rewrite app_nil_r. reflexivity.
+        -- rewrite IH. destruct (existsb scf_blk_demands_deletion pre); [reflexivity|].
+           rewrite <- app_assoc. reflexivity.
+Qed.
+
+Lemma scf_rx_blocks_spec : forall bl,
+  scf_rx_blocks bl = if existsb scf_blk_demands_deletion bl then None else Some (filter scf_blk_stays bl).
+Proof.
+  intros bl. unfold scf_rx_blocks. rewrite <- (app_nil_r bl) at 2. rewrite scf_rx_scan_spec, app_nil_r. reflexivity.
+Qed.
+
+(* the bundle is refused because of its blocks exactly when an unsupported block demands the deletion *)
+Lemma scf_rx_del_iff : forall bl,
+  scf_rx_del bl = true <-> exists b, In b bl /\ bk_known b = false /\ scf_blk_has scf_fl_delete b = true.
+Proof.
+  intros bl. unfold scf_rx_del. rewrite scf_rx_blocks_spec.
+  destruct (existsb scf_blk_demands_deletion bl) eqn:E.
+  - split; [intros _|reflexivity]. apply existsb_exists in E. destruct E as [b [Hb Hd]].
+    unfold scf_blk_demands_deletion in Hd. apply andb_true_iff in Hd. destruct Hd as [Hk Hd].
+    exists b. rewrite negb_true_iff in Hk. auto.
+  - split; [discriminate|]. intros [b [Hb [Hk Hd]]]. exfalso.
+    assert (existsb scf_blk_demands_deletion bl = true) as X.
+    { apply existsb_exists. exists b. split; auto. unfold scf_blk_demands_deletion. rewrite Hk, Hd. reflexivity. }
+    congruence.
+Qed.
+
+(* the flags of blocks the node can process, and every flag but "delete bundle", never cost the bundle *)
+Lemma scf_rx_known_harmless : forall bl,
+  (forall b, In b bl -> bk_known b = true \/ scf_blk_has scf_fl_delete b = false) -> scf_rx_del bl = false.
+Proof.
+  intros bl H. destruct (scf_rx_del bl) eqn:E; [|reflexivity]. apply scf_rx_del_iff in E.
+  destruct E as [b [Hb [Hk Hd]]]. destruct (H b Hb); congruence.
+Qed.
+
+(* a bundle that is kept goes on with exactly its blocks less the unsupported ones flagged for removal, in order *)
+Lemma scf_rx_blocks_kept : forall bl r, scf_rx_blocks bl = Some r -> r = filter scf_blk_stays bl.
+Proof.
+  intros bl r. rewrite scf_rx_blocks_spec. destruct (existsb scf_blk_demands_deletion bl); congruence.
+Qed.
+
+(* the scenario of the aliasing defect: [unknown, remove] directly in front of [known, delete] *)
+Lemma scf_ex_rx_remove_then_known_delete :
+  scf_rx_blocks [ {| bk_known := false; bk_flags := 16 |}; {| bk_known := true; bk_flags := 5 |}; {| bk_known := true; bk_flags := 0 |} ]
+  = Some [ {| bk_known := true; bk_flags := 5 |}; {| bk_known := true; bk_flags := 0 |} ].
+Proof. reflexivity. Qed.
